@@ -2,6 +2,7 @@
 package main
 
 import (
+	"fmt"
 	"strings"
 
 	"github.com/mmcloughlin/addchain/acc/ast"
@@ -77,6 +78,12 @@ func gen(tier string, r *lib.Rand, emit func(string)) {
 		emit("print " + acclib.EncScript(t))
 	}
 	emit("print -")
+	// large sizes: long sums, deep nesting, many statements, wide alignment padding
+	for _, sh := range acclib.LargeShapes {
+		for _, n := range acclib.LargeSizes(tier) {
+			emit(fmt.Sprintf("large %s %d", sh, n))
+		}
+	}
 	// keyword look-alike identifiers in every statement position
 	acclib.LookalikeCases(func(src string, want *ast.Chain) {
 		emit("fmt " + hex(src))
@@ -103,6 +110,8 @@ func nontrivial(c, res string) bool {
 	f := strings.Split(c, " ")
 	r := strings.Split(res, " ")
 	switch f[0] {
+	case "large":
+		return res == "ok"
 	case "print":
 		t := acclib.DecScript(f[1])
 		return acclib.InScope(t) && acclib.CountOps(t) >= 2
